@@ -104,14 +104,15 @@ ClausesKept(o) ==
     /\ SeqToSet(o.srcs) \subseteq declared
 
 (* BatchQueries(start, stop): call ... *)
+(* Without a stop time the code uses the wall clock; the driver logs the second *)
+(* before and after the call and TLC picks the one the code saw.               *)
 TrHist ==
     /\ IsEv("Hist") /\ tcfg # NoCfg
-    /\ StartSpan(SchOf(tcfg), Ln.start, Ln.stop)
+    /\ IF Has(Ln, "stop") THEN StartSpan(SchOf(tcfg), Ln.start, Ln.stop)
+       ELSE \E n \in Ln.stop_lo..Ln.stop_hi : StartSpan(SchOf(tcfg), Ln.start, n)
     /\ UNCHANGED tcfg
 (* ... the model runs the Queries() loop and the live ticker over the span ... *)
-(* (the two loops are independent; running them one after the other keeps the  *)
-(* validation linear)                                                           *)
-TrSilent == (HistStep \/ (hdone /\ LiveTick)) /\ UNCHANGED <<l, tcfg>>
+TrSilent == (HistStep \/ LiveTick) /\ UNCHANGED <<l, tcfg>>
 (* ... and return.                                                             *)
 HistItemVerdict(o, lq) ==
     /\ o.gs = lq.s /\ o.ge = lq.e                   \* StartTime()/StopTime()
